@@ -95,7 +95,7 @@ static void sweep(Rig &R, const Cfg &c, const std::vector<int> &vels, const std:
                     grid[(a * nc + b) * ne + e][(size_t)k] = (int8_t)tl[k];
                 }
                 acc.points++;
-                if(nt) { acc.nontrivial++; if(acc.samples.size() < 3 && (acc.points % 7919) == 1) acc.samples.push_back(show(c, vel, vol, expr) + fmt(" -> TL %d %d %d %d", tl[0], tl[1], tl[2], tl[3])); }
+                if(nt) { acc.nontrivial++; if(acc.samples.size() < 3 && (acc.samples.empty() || (acc.points % 7919) == 1)) acc.samples.push_back(show(c, vel, vol, expr) + fmt(" -> TL %d %d %d %d", tl[0], tl[1], tl[2], tl[3])); }
             }
         }
         opn2_rt_noteOff(R.I.dev, 0, 60);
